@@ -49,6 +49,7 @@ func checkC01(c *Check) {
 	c01Deliver(c)
 	c01TryDelivery(c)
 	c01EmitDSN(c)
+	c01Teardown(c)
 
 	// R3: the status-key contract of the targets below the queue. tryDelivery reads "no recorded error ⇒ delivered",
 	// so every key a target reports must be one of the queue's own strings. This is C09's rule set, evaluated here
@@ -953,4 +954,87 @@ func c01EmitDSN(c *Check) {
 	})
 	p, f := r.F.Reach(Query{From: r.Entry(), Inclusive: true, Target: isPt(starts), AvoidEdge: avoidNull})
 	c.Hold("R5e", "emitDSN:null-sender-guard", r.Pos(starts[0]), !f, "the bounce pipeline can be started for a message with the null sender (reports about reports): "+r.F.Describe(p))
+}
+
+// R6: the downstream SMTP target commits by closing its connection and returns what Close returns; the queue treats a
+// Commit error as "nothing was delivered" and re-attempts every accepted recipient. By then the next hop has answered
+// 250 to the final dot: the message IS delivered. The error of the QUIT command (a 421 at idle time-out, a dropped
+// connection) therefore must not come back from Close – only the outcome of closing the socket may.
+func c01Teardown(c *Check) {
+	c.Rule("R6", "smtpconn.C.Close: the value returned never derives from the QUIT command's error (the smtp target returns it from Commit; a failed QUIT after an accepted message would make the queue deliver it again)", 1)
+	r := c.need("R6", "internal/smtpconn", "C", "Close")
+	if r == nil {
+		return
+	}
+	info := r.Info
+	body := r.FI.Decl.Body
+	tainted := map[types.Object]bool{}
+	hasQuit := func(e ast.Expr) bool {
+		found := false
+		ast.Inspect(e, func(x ast.Node) bool {
+			switch y := x.(type) {
+			case *ast.CallExpr:
+				if methodName(y) == "Quit" {
+					found = true
+				}
+			case *ast.Ident:
+				if o := info.Uses[y]; o != nil && tainted[o] {
+					found = true
+				}
+			}
+			return !found
+		})
+		return found
+	}
+	nQuit := 0
+	ast.Inspect(body, func(x ast.Node) bool {
+		if call, ok := x.(*ast.CallExpr); ok && methodName(call) == "Quit" {
+			nQuit++
+		}
+		return true
+	})
+	for changed := true; changed; {
+		changed = false
+		ast.Inspect(body, func(x ast.Node) bool {
+			as, ok := x.(*ast.AssignStmt)
+			if !ok {
+				return true
+			}
+			for i, l := range as.Lhs {
+				var rhs ast.Expr
+				if len(as.Rhs) == len(as.Lhs) {
+					rhs = as.Rhs[i]
+				} else if len(as.Rhs) == 1 {
+					rhs = as.Rhs[0]
+				}
+				o := objOf(info, l)
+				if rhs == nil || o == nil || tainted[o] {
+					continue
+				}
+				if v, isVar := o.(*types.Var); !isVar || v.IsField() {
+					continue
+				}
+				if hasQuit(rhs) {
+					tainted[o] = true
+					changed = true
+				}
+			}
+			return true
+		})
+	}
+	msg := ""
+	inspectNoLit(body, func(x ast.Node) bool {
+		if ret, ok := x.(*ast.ReturnStmt); ok {
+			for _, e := range ret.Results {
+				if hasQuit(e) {
+					msg = "line " + itoa(c.P.Fset.Position(ret.Pos()).Line) + ": Close returns the error of QUIT (" + exprStr(e) + "): target.smtp returns it from Commit after the next hop accepted the message, and the queue re-attempts – the recipients get the message once per attempt"
+				}
+			}
+		}
+		return true
+	})
+	if nQuit == 0 {
+		msg = "undecided: no QUIT in Close"
+	}
+	c.Hold("R6", "C.Close:quit-error-not-returned", r.FI.Decl.Pos(), msg == "", msg)
 }
